@@ -65,6 +65,8 @@ def run(F, R, tier):
         R.check(not nonins, "C14.R1", "C14.R1:%s:header-mutations-are-inserts" % fid, "-",
                 "every header mutation is an insert (%d site(s)); names are checked by C05.R4" % len(muts),
                 "header mutators other than insert: %s" % nonins)
+    from rules.c04 import send_chain_untouched
+    send_chain_untouched(F, R, G, "C14.R1")
     cv = F.body_of(CONV)
     if cv:
         B = mir.Body(cv, F)
